@@ -57,6 +57,11 @@ func (g *TxGen) vrfDriver() *vrfDriver {
 	return g.vrf
 }
 
+// exact reports whether the epoch's plan fixes the number of proofs (no unplanned provers then).
+func (d *vrfDriver) exact() bool {
+	return d.mood == "silent" || d.mood == "one-below-threshold" || d.mood == "exactly-threshold"
+}
+
 func (d *vrfDriver) anchor(n *SimNode) bool {
 	sc := d.g.h.Sc
 	return n.InGenesis && n.Roles&node.RoleValidator != 0 && (n.Entity == sc.Entities[0] || n.Entity == sc.Entities[1]) && n == n.Entity.Nodes[0]
@@ -114,17 +119,63 @@ func (d *vrfDriver) txs(height int64) []*GenTx {
 		d.sent, d.tried = map[signature.PublicKey]*vrfSent{}, map[signature.PublicKey]bool{}
 		d.plan = map[*SimNode]int64{}
 		switch x := rng.IntN(12); {
-		case x < 4:
+		case x < 3:
 			d.mood = "full"
-		case x < 8:
+		case x < 6:
 			d.mood = "normal"
-		case x < 11:
+		case x < 8:
 			d.mood = "sparse"
-		default:
+		case x < 9:
 			d.mood = "silent"
+		case x < 11:
+			d.mood = "one-below-threshold"
+		default:
+			d.mood = "exactly-threshold"
+		}
+		first, last := st.SubmitAfter+1, snap.Future.Height-1
+		// The threshold moods: exactly threshold-1 / threshold of the registered nodes prove (those that
+		// skip are taken from the nodes without the compute role first, so that a committee elected from
+		// these proofs is followed by a weak alpha). Only when the threshold is within reach.
+		var regd []*SimNode
+		for _, n := range g.h.Sc.AllNodes() {
+			if cur := v.Nodes[n.Keys.ID.PK]; cur != nil && cur.VRF.ID.Equal(n.Keys.VRF.PK) {
+				regd = append(regd, n)
+			}
+		}
+		chosen := map[*SimNode]bool{}
+		if d.mood == "one-below-threshold" || d.mood == "exactly-threshold" {
+			want := int(snap.Params.VRFParameters.AlphaHighQualityThreshold)
+			if d.mood == "one-below-threshold" {
+				want--
+			}
+			if want < 0 || want > len(regd) || snap.Params.VRFParameters.AlphaHighQualityThreshold > uint64(len(regd)) {
+				d.mood = "normal"
+			} else {
+				// anchors, then compute nodes, then the others, each group in PRNG order
+				perm := rng.Perm(len(regd))
+				rank := func(n *SimNode) int {
+					switch {
+					case d.anchor(n):
+						return 0
+					case n.IsCompute():
+						return 1
+					}
+					return 2
+				}
+				var order []*SimNode
+				for r := 0; r < 3; r++ {
+					for _, i := range perm {
+						if rank(regd[i]) == r {
+							order = append(order, regd[i])
+						}
+					}
+				}
+				for i := 0; i < want && i < len(order); i++ {
+					chosen[order[i]] = true
+				}
+			}
 		}
 		d.Moods[d.mood]++
-		first, last := st.SubmitAfter+1, snap.Future.Height-1
 		sparseP := 1 + rng.IntN(3) // of 4
 		for _, n := range g.h.Sc.AllNodes() {
 			prove := true
@@ -135,6 +186,8 @@ func (d *vrfDriver) txs(height int64) []*GenTx {
 				prove = d.anchor(n) || rng.IntN(4) < sparseP
 			case "silent":
 				prove = false
+			case "one-below-threshold", "exactly-threshold":
+				prove = chosen[n]
 			}
 			at := first
 			if last > first && rng.IntN(3) == 0 {
@@ -343,7 +396,7 @@ func (d *vrfDriver) txs(height int64) []*GenTx {
 			gt.Intent = "gas-too-low"
 			emit(gt)
 		case 10: // an expired node that is still registered proves (accepted: the handler only looks the node up)
-			if !open {
+			if !open || d.exact() {
 				continue
 			}
 			var exp []*SimNode
@@ -367,7 +420,7 @@ func (d *vrfDriver) txs(height int64) []*GenTx {
 			}
 			emit(gt)
 		case 11: // a node that planned to skip proves after all, late in the window (keeps plans from being the only pattern)
-			if !open || d.mood == "silent" || d.sent[n.Keys.ID.PK] != nil {
+			if !open || d.exact() || d.sent[n.Keys.ID.PK] != nil {
 				continue
 			}
 			pi := validPi()
